@@ -48,9 +48,10 @@ func vVals(n, maxLen int) [][]byte {
 	return vals
 }
 
-func vWriteTable(dir string, keys, vals [][]byte, dataComp, indexComp, wbuf int) {
-	w, err := NewSSTableStreamWriter(WriteBasePath(dir), WithKeyComparator(skiplist.BytesComparator{}),
-		WriteBufferSizeBytes(wbuf), DataCompressionType(dataComp), IndexCompressionType(indexComp))
+func vWriteTable(dir string, keys, vals [][]byte, dataComp, indexComp, wbuf int, extra ...WriterOption) {
+	opts := append([]WriterOption{WriteBasePath(dir), WithKeyComparator(skiplist.BytesComparator{}),
+		WriteBufferSizeBytes(wbuf), DataCompressionType(dataComp), IndexCompressionType(indexComp)}, extra...)
+	w, err := NewSSTableStreamWriter(opts...)
 	vrt.Assert(err == nil, "table/new-writer-no-error")
 	vrt.Assert(w.Open() == nil, "table/writer-open-no-error")
 	for i := range keys {
@@ -129,7 +130,15 @@ func vTableHarness(li int) {
 		indexComp = vComps[vrt.Choose("indexcomp", 2)]
 		wbuf = []int{5, 64}[vrt.Choose("wbuf", 2)]
 	}
-	vWriteTable(dir, keys, vals, dataComp, indexComp, wbuf)
+	// the bloom filter sizing hint is only a hint: a table may hold more records than announced
+	var extra []WriterOption
+	if vrt.Choose("bloomhint", 2) == 1 {
+		extra = append(extra, BloomExpectedNumberOfElements(1))
+		if n > 1 {
+			vrt.Reach("table/more-records-than-the-bloom-hint")
+		}
+	}
+	vWriteTable(dir, keys, vals, dataComp, indexComp, wbuf, extra...)
 	pLen := kLen
 	vrt.Tag("loader-" + vLoaderNames[li])
 	r, err := NewSSTableReader(ReadBasePath(dir), ReadBufferSizeBytes(16), ReadIndexLoader(vLoader(li, 16)))
